@@ -248,6 +248,7 @@ static int apply_diff(encobj *e,const int *a,const int *b){
 
 /* ------------------------------------------------------------------ one frame: encode, check, decode everywhere
  * returns 0 ok, 1 = a failure was recorded (the run stops) */
+static int g_gate=0;
 static int step(encobj *e,const int *v,int fam,int entry,long *pos,decobj *D,int nd,int base,const char *what,int frame){
    int Fs=e->Fs, ch=e->ch, fsz=(int)((long)DUR48[v[D_DUR]]*Fs/48000), mdb=v[D_MDB], n, i, S=e->api?e->streams:1, need, mode=0;
    size_t ss = entry==0?sizeof(short):4; void *in; unsigned char *pkt; opus_uint32 ge; char sig[96];
@@ -258,6 +259,7 @@ static int step(encobj *e,const int *v,int fam,int entry,long *pos,decobj *D,int
    in=malloc((size_t)fsz*ch*ss);
    if (entry==0) memcpy(in,SB[fam].s16+*pos*ch,(size_t)fsz*ch*ss); else if (entry==1) memcpy(in,SB[fam].s24+*pos*ch,(size_t)fsz*ch*ss); else memcpy(in,SB[fam].f+*pos*ch,(size_t)fsz*ch*ss);
    *pos+=fsz;
+   if (g_gate && (long)fsz*1000>=40L*Fs){ size_t tail=(size_t)(Fs/50)*ch*ss; memset((char*)in+(size_t)fsz*ch*ss-tail,0,tail); }   /* gated: the last 20 ms of a multi-frame input are digital silence */
    pkt=malloc(mdb);
    memset(pkt,0xA5,mdb);
    n=enc_call(e,entry,in,fsz,pkt,mdb);
@@ -530,18 +532,24 @@ static void ms_item(long it,void *ctx){
  * item = (base, filling configuration, frame duration) */
 static void sweep_item(long it,void *ctx){
    int base=(int)(it/36), c=(int)((it/9)%4), d=(int)(it%9), v[NDIM], dflt[NDIM], x; (void)ctx;
-   if (!g_sweepall){ if (c>=2 || d!=3+(base+c)%3) return; }              /* quick: MAX bitrate VBR+CBR, one of 20/40/60 ms per (base, cfg), rotating */
+   if (!g_sweepall){ if (c>=2 || (d!=3+(base+c)%3 && d!=6+(base/3+c)%3)) return; }   /* quick: MAX bitrate VBR+CBR, one of 20/40/60 ms and one of 80/100/120 ms per (base, cfg), rotating */
    else if (c>=2 && (d<3||d>5)) return;                                   /* thorough: 510 kb/s settings only at 20/40/60 ms */
    load_signals(FS[base/6],1+(base/3)%2); vec_default(dflt);
-   for(x=0;x<((g_sweepall && d>=3 && d<=5)?2:1);x++){
-      encobj e; decobj D[14]; int nd,m,fam=x?SIG_SQUARE:SIG_NOISE,entry=(int)((it+x)%3); long pos=0;
+   /* x==2: noise whose last 20 ms per frame are digital silence (frames >= 40 ms): the sub-frames of a multi-frame packet then differ in size, the
+      packet is code-3 VBR and the sizes of its non-final sub-frames - dictated by the buffer - sweep through every value (251/252/253: 1- vs 2-byte length) */
+   for(x=0;x<3;x++){
+      encobj e; decobj D[14]; int nd,m,fam=x==1?SIG_SQUARE:SIG_NOISE,entry=(int)((it+x)%3); long pos=0;
+      if (x==1 && !(g_sweepall && d>=3 && d<=5)) continue;
+      if (x==2 && d<4) continue;
+      g_gate = x==2;
       vec_default(v); v[D_BITRATE]=(c&2)?510000:OPUS_BITRATE_MAX; v[D_VBR]=(c&1)?0:1; v[D_DUR]=d;
-      mc_case("encode_or_decode","sweep base=%d Fs=%d ch=%d app=%s cfg=[%s] signal=%s entry=%s max_data_bytes 1..1500",base,FS[base/6],1+(base/3)%2,APPN[base%3],vec_str(v),famname(fam),ENTN[entry]);
+      mc_case("encode_or_decode","sweep base=%d Fs=%d ch=%d app=%s cfg=[%s] signal=%s%s entry=%s max_data_bytes 1..1500",base,FS[base/6],1+(base/3)%2,APPN[base%3],vec_str(v),famname(fam),x==2?" (last 20 ms of every frame silent)":"",ENTN[entry]);
       enc_fresh(&e,base);
       if (apply_diff(&e,dflt,v)){ MC_INC(c_skipcfg); return; }
       nd=dec_set(D,it+x,base);
       MC_INC(c_runs);
       for(m=1;m<=1500;m++){ v[D_MDB]=m; if (step(&e,v,fam,entry,&pos,D,nd,base,basename_(base),m-1)==1) break; }
+      g_gate=0;
    }
 }
 
